@@ -5,13 +5,30 @@
 //  (b) NONBLOCK op succeeds although the fd was not readable     (missed wake-up)
 //  (c) NONBLOCK op returns NNG_EAGAIN and the same op re-issued at once with a
 //      100 ms timeout succeeds with no other stimulus             (could-but-didn't)
-//  (d) a NONBLOCK call takes longer than 400 ms                   (blocks)
+//  (d) the calling thread sleeps inside a NONBLOCK call: > 1.5 s (protocol
+//      timers are >= 2 s), or > 400 ms twice in a row            (blocks)
 //  (e) after a failed NONBLOCK send the caller still owns the message (ASan /
-//      allocator balance decide: the harness frees it).
+//      allocator balance decide: the harness frees it; a failed zero-timeout
+//      aio still carries it), and a flagged call never fails with ETIMEDOUT.
 // (a)/(b) are only reported if they persist after a further settle period.
+// Every probe is issued in one of the API forms nng_recvmsg/nng_sendmsg,
+// nng_recv/nng_send (buffers), zero-timeout aio on the socket, and
+// nng_ctx_recvmsg/nng_ctx_sendmsg or zero-timeout aio on an extra context;
+// the descriptors describe the socket forms, and socket probes follow context
+// activity.  (NNG_FLAG_ALLOC does not exist in this version of the API.)
+// Quiescent = hook counters zero AND every other thread of the process asleep
+// (and, before clause (c) is judged over tcp, nothing unacknowledged in any
+// TCP socket of the process): no verdict depends on how loaded the machine is.
 #include "vfh.h"
 #include <poll.h>
 #include <unistd.h>
+#include <fcntl.h>
+#include <dirent.h>
+#include <sys/ioctl.h>
+#include <sys/socket.h>
+#include <sys/syscall.h>
+#include <netinet/in.h>
+#include <linux/sockios.h>
 
 typedef struct {
 	const vf_proto *pr;
@@ -26,12 +43,26 @@ typedef struct {
 	nng_msg        *stash; // last message received locally (for echo sends)
 	int             rfd, sfd;
 	bool            have_rfd, have_sfd;
+	bool            fds_fetched;      // poll descriptors have been asked for
+	bool            lazy_r, lazy_s;   // next recv / send probe is the first one on a lazily created descriptor
+	nng_ctx         ctx;              // one extra context (req, rep, sub, surveyor, respondent)
+	bool            have_ctx;
+	bool            send_tried_since_recv; // a socket send was attempted since the last successful socket receive
+	bool            keep_stash;       // raw sends echo a copy of the stashed message, never the original
+	vf_rng         *r;
 	char            name[32];
 	uint64_t        seq;
 	bool            peer_open;
 	nng_listener    lst;
 	char            durl[128];
 } cx_t;
+
+// API forms of one operation.  The first three act on the socket (and so on
+// its default context: the poll descriptors describe them), the last two on
+// the extra context.
+enum { F_MSG = 0, F_BUF, F_AIO, F_CTX, F_CTXAIO, F_N };
+static const char *form_names[F_N] = { "msg", "buf", "aio", "ctx", "ctx-aio" };
+#define TIMED_MS 30
 
 #include <pthread.h>
 static pthread_mutex_t pipes_mtx = PTHREAD_MUTEX_INITIALIZER;
@@ -72,15 +103,70 @@ fresh_msg(cx_t *c)
 	return m;
 }
 
+// Quiescence must not depend on how fast the machine is: with a hundred
+// runnable processes per CPU a library thread that has been woken (by a task,
+// by the kernel: epoll) may not run for tens of milliseconds, and the hook
+// counters know nothing of it until it does.  So, besides the counters:
+// every other thread of this process is asleep (state S in /proc: a thread
+// that was woken is R whether it has a CPU or not) ...
+static bool
+threads_all_asleep(void)
+{
+	DIR           *d = opendir("/proc/self/task");
+	struct dirent *e;
+	long           me = (long) syscall(SYS_gettid);
+	bool           ok = true;
+	if (d == NULL) return true;
+	while (ok && (e = readdir(d)) != NULL) {
+		char path[64], buf[256], *q;
+		if (e->d_name[0] < '0' || e->d_name[0] > '9' || atol(e->d_name) == me) continue;
+		snprintf(path, sizeof(path), "/proc/self/task/%s/stat", e->d_name);
+		int fd = open(path, O_RDONLY | O_CLOEXEC);
+		if (fd < 0) continue; // gone
+		ssize_t n = read(fd, buf, sizeof(buf) - 1);
+		close(fd);
+		if (n <= 0) continue;
+		buf[n] = 0;
+		if ((q = strrchr(buf, ')')) == NULL || q[1] != ' ') continue;
+		if (q[2] == 'R' || q[2] == 'D') ok = false;
+	}
+	closedir(d);
+	return ok;
+}
+
+// ... and no TCP socket of this process (both ends of every connection are
+// ours) has bytes that were written but are not yet acknowledged: whatever
+// was sent has reached the receiving socket (and woken its poller, if that
+// was armed), however long the kernel's soft interrupts are delayed.
+static bool
+tcp_all_delivered(void)
+{
+	for (int fd = 3; fd < 256; fd++) {
+		int                     ty, q = 0;
+		socklen_t               l = sizeof(ty);
+		struct sockaddr_storage ss;
+		socklen_t               sl = sizeof(ss);
+		if (getsockopt(fd, SOL_SOCKET, SO_TYPE, &ty, &l) != 0 || ty != SOCK_STREAM) continue;
+		if (getsockname(fd, (struct sockaddr *) &ss, &sl) != 0 || (ss.ss_family != AF_INET && ss.ss_family != AF_INET6)) continue;
+		if (ioctl(fd, SIOCOUTQ, &q) == 0 && q > 0) return false;
+	}
+	return true;
+}
+
 static bool
 settle(cx_t *c)
 {
-	bool ok = vf_quiesce(c->tran == VF_T_INPROC ? 1 : 3, 2000);
-	if (c->tran != VF_T_INPROC) {
-		vf_msleep(3);
-		ok = vf_quiesce(3, 2000) && ok;
+	for (int tries = 0; tries < 300; tries++) {
+		if (!vf_quiesce(c->tran == VF_T_INPROC ? 1 : 3, 2000)) return false;
+		if (c->tran != VF_T_INPROC) {
+			vf_msleep(3);
+			if (!vf_quiesce(3, 2000)) return false;
+		}
+		if (threads_all_asleep() && vf_inflight() == 0) return true;
+		vf_stat("settle_retries_thread_runnable", 1);
+		vf_msleep(1);
 	}
-	return ok;
+	return false;
 }
 
 static long
@@ -90,143 +176,566 @@ activity(void)
 }
 
 // After an NNG_EAGAIN: was the library really idle?  Any task, poller wake-up,
-// reap or timer expiry in the next 10 ms means some stimulus was still on its
-// way when we probed, and the probe is not judged.
+// reap or timer expiry in the next 10 ms, a thread that is runnable at the
+// end of them, or data still on its way through the kernel (waited for: a
+// delayed ACK takes 40 ms) means some stimulus was still on its way when we
+// probed, and the probe is not judged.
 static bool
-still_idle(void)
+still_idle(cx_t *c)
 {
 	long a = activity();
 	vf_msleep(10);
-	return activity() == a && vf_inflight() == 0;
+	if (c->tran != VF_T_INPROC) {
+		int i = 0;
+		while (!tcp_all_delivered()) {
+			if (++i > 300) return false;
+			vf_msleep(1);
+		}
+		if (i > 0) {
+			vf_stat("idle_checks_waited_for_tcp_ack", 1);
+			vf_msleep(2);
+		}
+	}
+	return activity() == a && vf_inflight() == 0 && threads_all_asleep() && activity() == a;
 }
 
-// one non-blocking receive probe
+// The poll descriptors are created lazily by the library, on first request.
 static void
+fetch_fds(cx_t *c, bool lazy)
+{
+	if (c->fds_fetched) return;
+	c->fds_fetched = true;
+	c->have_rfd    = nng_socket_get_recv_poll_fd(c->s, &c->rfd) == 0;
+	c->have_sfd    = nng_socket_get_send_poll_fd(c->s, &c->sfd) == 0;
+	c->lazy_r      = lazy && c->have_rfd;
+	c->lazy_s      = lazy && c->have_sfd;
+	if (lazy) vf_stat("lazy_fd_fetches", 1);
+}
+
+// A message arrived at the harness through the socket / the context.
+static void
+keep_msg(cx_t *c, nng_msg *m, bool ctxf)
+{
+	if (!ctxf) c->send_tried_since_recv = false;
+	if (m == NULL) return;
+	if (ctxf) { nng_msg_free(m); return; }
+	if (c->stash) nng_msg_free(c->stash);
+	c->stash = m;
+}
+
+// One receive in the given API form: NONBLOCK (zero timeout for the aio
+// forms), or with a timeout of tmo ms.  NNG_ETIMEDOUT of a zero-timeout aio
+// is what NNG_EAGAIN is for the flag.  *mp is NULL after a successful
+// buffer-form receive (the body was copied out).
+static int
+do_recv(cx_t *c, int form, bool nb, int tmo, nng_msg **mp)
+{
+	int rv;
+	*mp = NULL;
+	switch (form) {
+	case F_MSG:
+		if (!nb) nng_socket_set_ms(c->s, NNG_OPT_RECVTIMEO, tmo);
+		return nng_recvmsg(c->s, mp, nb ? NNG_FLAG_NONBLOCK : 0);
+	case F_BUF: {
+		char   buf[256];
+		size_t sz = sizeof(buf);
+		if (!nb) nng_socket_set_ms(c->s, NNG_OPT_RECVTIMEO, tmo);
+		return nng_recv(c->s, buf, &sz, nb ? NNG_FLAG_NONBLOCK : 0);
+	}
+	case F_CTX:
+		if (!nb) nng_ctx_set_ms(c->ctx, NNG_OPT_RECVTIMEO, tmo);
+		return nng_ctx_recvmsg(c->ctx, mp, nb ? NNG_FLAG_NONBLOCK : 0);
+	default: {
+		nng_aio *a;
+		if (nng_aio_alloc(&a, NULL, NULL) != 0) vf_harness_fail("aio alloc");
+		nng_aio_set_timeout(a, nb ? NNG_DURATION_ZERO : tmo);
+		if (form == F_AIO) nng_socket_recv(c->s, a);
+		else nng_ctx_recv(c->ctx, a);
+		nng_aio_wait(a);
+		rv = nng_aio_result(a);
+		if (rv == 0) *mp = nng_aio_get_msg(a);
+		nng_aio_free(a);
+		if (nb && rv == NNG_ETIMEDOUT) rv = NNG_EAGAIN;
+		return rv;
+	}
+	}
+}
+
+// One send.  On success the library owns (or has copied) the message and m
+// is gone; on failure the caller still owns m (clause e).
+static int
+do_send(cx_t *c, int form, bool nb, int tmo, nng_msg *m, const char *after)
+{
+	int rv;
+	switch (form) {
+	case F_MSG:
+		if (!nb) nng_socket_set_ms(c->s, NNG_OPT_SENDTIMEO, tmo);
+		return nng_sendmsg(c->s, m, nb ? NNG_FLAG_NONBLOCK : 0);
+	case F_BUF:
+		// the caller's buffer is copied: the library's copy is the library's
+		// business in both outcomes (allocator balance decides)
+		if (!nb) nng_socket_set_ms(c->s, NNG_OPT_SENDTIMEO, tmo);
+		rv = nng_send(c->s, nng_msg_body(m), nng_msg_len(m), nb ? NNG_FLAG_NONBLOCK : 0);
+		if (rv == 0) nng_msg_free(m);
+		return rv;
+	case F_CTX:
+		if (!nb) nng_ctx_set_ms(c->ctx, NNG_OPT_SENDTIMEO, tmo);
+		return nng_ctx_sendmsg(c->ctx, m, nb ? NNG_FLAG_NONBLOCK : 0);
+	default: {
+		nng_aio *a;
+		if (nng_aio_alloc(&a, NULL, NULL) != 0) vf_harness_fail("aio alloc");
+		nng_aio_set_timeout(a, nb ? NNG_DURATION_ZERO : tmo);
+		nng_aio_set_msg(a, m);
+		if (form == F_AIO) nng_socket_send(c->s, a);
+		else nng_ctx_send(c->ctx, a);
+		nng_aio_wait(a);
+		rv = nng_aio_result(a);
+		if (rv != 0 && nng_aio_get_msg(a) != m && nb) {
+			// (e) for the aio form: the message stays attached to the aio
+			char key[128];
+			snprintf(key, sizeof(key), "C15/msg-not-left/%s.%ssend", c->name, form == F_CTXAIO ? "ctx-" : "");
+			vf_violation(key, "%s: zero-timeout aio send failed (%s) and the message is no longer attached to the aio (after %s)", c->name, nng_strerror(rv), after);
+		}
+		nng_aio_free(a);
+		if (nb && rv == NNG_ETIMEDOUT) rv = NNG_EAGAIN;
+		return rv;
+	}
+	}
+}
+
+// Clause (d) without a wall-clock verdict: how long the calling thread SLEPT
+// inside a call - wall time minus the time it was running and minus the time
+// it was runnable but waiting for a CPU (/proc/thread-self/schedstat).  On an
+// overloaded machine a call can take a second without ever blocking.
+typedef struct {
+	uint64_t wall, cpu, delay;
+} tmark;
+
+static void
+tmark_get(tmark *t)
+{
+	static int fd = -2;
+	char       buf[96];
+	t->cpu = t->delay = 0;
+	if (fd == -2) fd = open("/proc/thread-self/schedstat", O_RDONLY | O_CLOEXEC);
+	if (fd >= 0) {
+		ssize_t n = pread(fd, buf, sizeof(buf) - 1, 0);
+		if (n > 0) {
+			unsigned long long a = 0, b = 0;
+			buf[n] = 0;
+			if (sscanf(buf, "%llu %llu", &a, &b) == 2) { t->cpu = a; t->delay = b; }
+		}
+	}
+	t->wall = vf_now_ns();
+}
+
+static double
+slept_ms(const tmark *a, const tmark *b)
+{
+	double w = (double) (b->wall - a->wall), busy = (double) (b->cpu - a->cpu) + (double) (b->delay - a->delay);
+	return (w > busy ? w - busy : 0.0) / 1e6;
+}
+
+static int
+rvclass(int rv)
+{
+	return rv == 0 ? 0 : rv == NNG_EAGAIN ? 8 : rv;
+}
+
+// One non-blocking probe (receive or send) in one API form, judged.
+// Returns the result of the first NONBLOCK attempt.
+static int
+probe(cx_t *c, bool send, int form, const char *after)
+{
+	char        key[160];
+	bool        ctxf = form >= F_CTX;
+	const char *op   = send ? (ctxf ? "ctx-send" : "send") : (ctxf ? "ctx-recv" : "recv");
+	const char *verb = send ? "send" : "receive";
+	nng_msg    *m    = NULL;
+	bool        echo = false;
+	bool        tried_before = c->send_tried_since_recv;
+	if (!settle(c)) { vf_stat("not_quiescent", 1); return -1; }
+	if (send) {
+		if (c->stash != NULL && c->raw) {
+			// raw protocols need the routing header back; sometimes keep the
+			// original so that several sends can be routed
+			if (c->keep_stash || vf_chance(c->r, 1, 2)) {
+				if (nng_msg_dup(&m, c->stash) != 0) vf_harness_fail("dup");
+			} else {
+				m        = c->stash;
+				c->stash = NULL;
+			}
+			echo = true;
+			if (form == F_BUF) form = F_MSG; // a buffer has no header
+		} else {
+			m = fresh_msg(c);
+		}
+	}
+	int pre = -1;
+	if (!ctxf) pre = send ? (c->have_sfd ? fd_readable(c->sfd) : -1) : (c->have_rfd ? fd_readable(c->rfd) : -1);
+	bool lazy = false;
+	if (!ctxf && pre >= 0 && (send ? c->lazy_s : c->lazy_r)) {
+		// first look at a descriptor that was created after the history so far
+		lazy = true;
+		if (send) c->lazy_s = false; else c->lazy_r = false;
+		vf_stat("lazy_fd_first_probes", 1);
+		if (pre == 1) vf_stat("lazy_fd_first_probe_raised", 1);
+	}
+	tmark t0, t1;
+	tmark_get(&t0);
+	int rv = send ? do_send(c, form, true, 0, m, after) : do_recv(c, form, true, 0, &m);
+	tmark_get(&t1);
+	double ms = slept_ms(&t0, &t1);
+	char     stat[64];
+	vf_stat("probes", 1);
+	snprintf(stat, sizeof(stat), "probes_%s", c->name);
+	vf_stat(stat, 1);
+	snprintf(stat, sizeof(stat), "probes_form_%s", form_names[form]);
+	vf_stat(stat, 1);
+	if (send && !ctxf) c->send_tried_since_recv = true;
+	if (vf_verbose) fprintf(stderr, "  probe %s %s-%s fd%d rv=%d after %s\n", c->name, op, form_names[form], pre, rv, after);
+	vf_class("%s/%s/%s%s/fd%d/rv=%d/after=%s", c->name, vf_tran_names[c->tran], op, echo ? "-echo" : "", pre, rvclass(rv), after);
+	vf_class("form:%s/%s-%s/rv=%d", c->name, op, form_names[form], rvclass(rv));
+	if (lazy) vf_class("lazy:%s/%s/fd%d/rv=%d", c->name, op, pre, rvclass(rv));
+	if (ms > 400.0) {
+		// (d) Protocol timers are >= 2 s here, so a call that sleeps longer
+		// than 1.5 s waited for one of them (or for its peer).  A shorter
+		// sleep counts if the same call, repeated at once, sleeps again
+		// (the caller may also have slept on a lock whose holder was kept
+		// off the CPU: that does not repeat).
+		bool   blocked = ms > 1500.0;
+		double ms2     = 0;
+		int    rv2     = rv;
+		vf_stat("slow_calls", 1);
+		if (!blocked && rv != 0) {
+			tmark_get(&t0);
+			rv2 = send ? do_send(c, form, true, 0, m, after) : do_recv(c, form, true, 0, &m);
+			tmark_get(&t1);
+			ms2     = slept_ms(&t0, &t1);
+			blocked = ms2 > 400.0;
+		}
+		if (blocked) {
+			snprintf(key, sizeof(key), "C15/blocked/%s.%s", c->name, op);
+			vf_violation(key, "%s: NONBLOCK %s (%s form) slept %.0f ms inside the call (result %s; repeated: %.0f ms) after %s", c->name, verb, form_names[form], ms, nng_strerror(rv), ms2, after);
+		} else {
+			vf_stat("slow_calls_not_blocked", 1);
+		}
+		// not judged any further
+		if (send && rv2 != 0) nng_msg_free(m);
+		if (!send && rv2 == 0) keep_msg(c, m, ctxf);
+		return rv;
+	}
+	if (rv == 0) {
+		if (pre == 0) {
+			// (b) the fd was sampled at quiescence, so a success means the
+			// descriptor missed the readiness
+			snprintf(key, sizeof(key), "C15/missed-wakeup/%s.%s", c->name, op);
+			vf_violation(key, "%s: %s poll fd not readable at quiescence but NONBLOCK %s (%s form) succeeded (after %s%s)", c->name, op, verb, form_names[form], after, lazy ? "; descriptor created lazily just before" : "");
+		}
+		if (!send) keep_msg(c, m, ctxf);
+		return rv; // a sent message is the library's
+	}
+	if (rv == NNG_ETIMEDOUT && form != F_AIO && form != F_CTXAIO) {
+		// a call with NNG_FLAG_NONBLOCK that cannot proceed fails with
+		// NNG_EAGAIN (or a state error), it has no time to run out of
+		snprintf(key, sizeof(key), "C15/etimedout-not-eagain/%s.%s", c->name, op);
+		vf_violation(key, "%s: %s with NNG_FLAG_NONBLOCK (%s form) failed with NNG_ETIMEDOUT instead of NNG_EAGAIN (after %s)", c->name, verb, form_names[form], after);
+	}
+	if (rv != NNG_EAGAIN) {
+		// a state error etc.: failed at once, the message is ours again
+		if (send) nng_msg_free(m);
+		return rv;
+	}
+	if (pre == 1) {
+		// (a) persistent?
+		vf_msleep(200);
+		settle(c);
+		if (fd_readable(send ? c->sfd : c->rfd)) {
+			int rv2 = send ? do_send(c, form, true, 0, m, after) : do_recv(c, form, true, 0, &m);
+			if (rv2 == NNG_EAGAIN) {
+				snprintf(key, sizeof(key), "C15/readable-but-eagain/%s.%s", c->name, op);
+				vf_violation(key, "%s: %s poll fd stays readable but NONBLOCK %s (%s form) returns NNG_EAGAIN (after %s)", c->name, op, verb, form_names[form], after);
+			} else if (rv2 == 0) {
+				if (!send) keep_msg(c, m, ctxf);
+				return rv;
+			}
+		}
+	}
+	// (c) could it have accepted / supplied?
+	if (!still_idle(c)) {
+		vf_stat("unjudged_activity_after_eagain", 1);
+		if (send) nng_msg_free(m);
+		return rv;
+	}
+	int rv2 = send ? do_send(c, form, true, 0, m, after) : do_recv(c, form, true, 0, &m);
+	if (rv2 == 0) {
+		// state changed without visible activity?  do not judge
+		vf_stat("unjudged_second_try_succeeded", 1);
+		if (!send) keep_msg(c, m, ctxf);
+		return rv;
+	}
+	int rv3 = send ? do_send(c, form, false, TIMED_MS, m, after) : do_recv(c, form, false, TIMED_MS, &m);
+	vf_stat("eagain_judged", 1);
+	if (rv3 == 0) {
+		// The one known finding (known_findings.json, C15/eagain-but-can/
+		// respondent.send: resp0_ctx_send asks nni_aio_start before it tries,
+		// pinned by the repository's "respond context send nonblock" test) is
+		// a property of the function that serves the socket and the context
+		// form alike, so both forms report it under that key.  What it must
+		// not hide gets a key of its own: the send descriptor of a
+		// RESPONDENT that was NOT readable although the reply could be sent
+		// and no failed attempt of ours had cleared it (with that defect a
+		// NONBLOCK send never succeeds, so clause (b) can never see it).
+		const char *sit = "";
+		const char *kop = op;
+		if (send && !strcmp(c->name, "respondent")) {
+			kop = "send";
+			if (!ctxf && pre == 0 && !tried_before) sit = ".fd-unreadable";
+		}
+		snprintf(key, sizeof(key), "C15/eagain-but-can/%s.%s%s", c->name, kop, sit);
+		vf_violation(key, "%s: NONBLOCK %s (%s form) returned NNG_EAGAIN at quiescence (poll fd state %d), the same %s with a %d ms timeout then succeeded (after %s)", c->name, verb, form_names[form], pre, verb, TIMED_MS, after);
+		if (!send) keep_msg(c, m, ctxf);
+		return rv;
+	}
+	if (send) nng_msg_free(m);
+	return rv;
+}
+
+static int
+sock_form(cx_t *c)
+{
+	uint32_t k = vf_below(c->r, 4);
+	return k < 2 ? F_MSG : k == 2 ? F_BUF : F_AIO;
+}
+
+static int
 probe_recv(cx_t *c, const char *after)
 {
-	nng_msg *m = NULL;
-	char     key[128];
-	if (!settle(c)) { vf_stat("not_quiescent", 1); return; }
-	int      pre = c->have_rfd ? fd_readable(c->rfd) : -1;
-	uint64_t t0  = vf_now_ns();
-	int      rv  = nng_recvmsg(c->s, &m, NNG_FLAG_NONBLOCK);
-	double   ms  = (double) (vf_now_ns() - t0) / 1e6;
-	vf_stat("probes", 1);
-	vf_class("%s/recv/fd%d/rv=%d/after=%s", c->name, pre, rv == 0 ? 0 : rv == NNG_EAGAIN ? 8 : rv, after);
-	if (ms > 400.0) {
-		snprintf(key, sizeof(key), "C15/blocked/%s.recv", c->name);
-		vf_violation(key, "%s: NONBLOCK receive took %.0f ms (result %s) after %s", c->name, ms, nng_strerror(rv), after);
+	return probe(c, false, sock_form(c), after);
+}
+
+static int
+probe_send(cx_t *c, const char *after)
+{
+	return probe(c, true, sock_form(c), after);
+}
+
+static void
+probe_ctx(cx_t *c, bool send, const char *after)
+{
+	if (!c->have_ctx) return;
+	int rv = probe(c, send, vf_chance(c->r, 3, 5) ? F_CTX : F_CTXAIO, after);
+	// the socket probes that follow judge the descriptors after this
+	if (rv == 0) vf_stat("ctx_ops_succeeded", 1);
+}
+
+// all probes of one step, in a seeded order (context probes between, before
+// and after the socket probes: mixed use)
+static void
+probe_all(cx_t *c, const char *after)
+{
+	int order[4] = { 0, 1, 2, 3 };
+	int n        = c->have_ctx ? 4 : 2;
+	for (int i = n - 1; i > 0; i--) {
+		int j = (int) vf_below(c->r, (uint32_t) i + 1), t = order[i];
+		order[i] = order[j];
+		order[j] = t;
 	}
-	if (rv == 0) {
-		if (pre == 0) {
-			// (b) confirm: was it a transient? nothing to re-sample (message
-			// consumed); the fd was sampled at quiescence, so a success means the
-			// descriptor missed the readiness.
-			snprintf(key, sizeof(key), "C15/missed-wakeup/%s.recv", c->name);
-			vf_violation(key, "%s: recv poll fd not readable at quiescence but NONBLOCK receive succeeded (after %s)", c->name, after);
-		}
-		if (c->stash) nng_msg_free(c->stash);
-		c->stash = m;
-		return;
-	}
-	if (rv == NNG_EAGAIN) {
-		if (pre == 1) {
-			// (a) persistent?
-			vf_msleep(200);
-			settle(c);
-			if (fd_readable(c->rfd)) {
-				int rv2 = nng_recvmsg(c->s, &m, NNG_FLAG_NONBLOCK);
-				if (rv2 == NNG_EAGAIN) {
-					snprintf(key, sizeof(key), "C15/readable-but-eagain/%s.recv", c->name);
-					vf_violation(key, "%s: recv poll fd stays readable but NONBLOCK receive returns NNG_EAGAIN (after %s)", c->name, after);
-				} else if (rv2 == 0) {
-					if (c->stash) nng_msg_free(c->stash);
-					c->stash = m;
-					return;
-				}
-			}
-		}
-		// (c) could it have supplied?
-		if (!still_idle()) { vf_stat("unjudged_activity_after_eagain", 1); return; }
-		if (nng_recvmsg(c->s, &m, NNG_FLAG_NONBLOCK) == 0) {
-			// state changed without visible activity?  keep the message, do not judge
-			vf_stat("unjudged_second_try_succeeded", 1);
-			if (c->stash) nng_msg_free(c->stash);
-			c->stash = m;
-			return;
-		}
-		nng_socket_set_ms(c->s, NNG_OPT_RECVTIMEO, 100);
-		int rv3 = nng_recvmsg(c->s, &m, 0);
-		if (rv3 == 0) {
-			snprintf(key, sizeof(key), "C15/eagain-but-can/%s.recv", c->name);
-			vf_violation(key, "%s: NONBLOCK receive returned NNG_EAGAIN at quiescence, the same receive with a 100 ms timeout then succeeded (after %s)", c->name, after);
-			if (c->stash) nng_msg_free(c->stash);
-			c->stash = m;
+	for (int i = 0; i < n; i++) {
+		switch (order[i]) {
+		case 0: probe_recv(c, after); break;
+		case 1: probe_send(c, after); break;
+		case 2: probe_ctx(c, false, after); break;
+		default: probe_ctx(c, true, after); break;
 		}
 	}
 }
 
+// Open the local socket: options, extra context, listener.
 static void
-probe_send(cx_t *c, const char *after)
+open_local(cx_t *c, int pi, bool raw, int tran, vf_rng *r)
 {
-	char     key[128];
-	nng_msg *m;
-	bool     echo = false;
-	if (!settle(c)) { vf_stat("not_quiescent", 1); return; }
-	if (c->stash != NULL && c->raw) {
-		m        = c->stash; // raw protocols need the routing header back
-		c->stash = NULL;
-		echo     = true;
+	int  rv;
+	char url[128];
+	memset(c, 0, sizeof(*c));
+	c->pr   = &vf_protos[pi];
+	c->raw  = raw;
+	c->tran = tran;
+	c->r    = r;
+	snprintf(c->name, sizeof(c->name), "%s%s", raw ? "x" : "", c->pr->name);
+	if ((rv = (raw ? c->pr->open_raw : c->pr->open)(&c->s)) != 0) vf_harness_fail("open %s: %s", c->name, nng_strerror(rv));
+	// long protocol timers: a call that waits for one of them is unambiguous
+	nng_socket_set_ms(c->s, NNG_OPT_REQ_RESENDTIME, 60000);
+	nng_socket_set_ms(c->s, NNG_OPT_SURVEYOR_SURVEYTIME, 2000);
+	if (!strcmp(c->pr->name, "sub") && !raw) nng_sub0_socket_subscribe(c->s, "", 0);
+	if (nng_ctx_open(&c->ctx, c->s) == 0) {
+		c->have_ctx = true;
+		nng_ctx_set_ms(c->ctx, NNG_OPT_REQ_RESENDTIME, 60000);
+		nng_ctx_set_ms(c->ctx, NNG_OPT_SURVEYOR_SURVEYTIME, 2000);
+		if (!strcmp(c->pr->name, "sub")) nng_sub0_ctx_subscribe(c->ctx, "", 0);
+	}
+	nng_pipe_notify(c->s, NNG_PIPE_EV_ADD_POST, pipe_cb, c);
+	nng_pipe_notify(c->s, NNG_PIPE_EV_REM_POST, pipe_cb, c);
+	vf_url(tran, url, sizeof(url));
+	if ((rv = nng_listen(c->s, url, &c->lst, 0)) != 0) vf_harness_fail("listen %s", nng_strerror(rv));
+	vf_dial_url(c->lst, tran, url, c->durl, sizeof(c->durl));
+}
+
+static void
+close_all(cx_t *c)
+{
+	if (c->stash) nng_msg_free(c->stash);
+	c->stash = NULL;
+	for (int i = 0; i < 3; i++) {
+		if (c->peers_open[i]) nng_socket_close(c->peers[i]);
+	}
+	nng_socket_close(c->s);
+}
+
+static void
+peer_reads(cx_t *c, nng_socket peer, int k, bool nb)
+{
+	bool replies = !strcmp(c->pr->peer_name, "rep") || !strcmp(c->pr->peer_name, "respondent");
+	for (int j = 0; j < k; j++) {
+		nng_msg *m;
+		if (nng_recvmsg(peer, &m, nb ? NNG_FLAG_NONBLOCK : 0) != 0) break;
+		// a replying peer answers (rep/respondent)
+		if (replies) {
+			if (nng_sendmsg(peer, m, 0) != 0) nng_msg_free(m);
+		} else {
+			nng_msg_free(m);
+		}
+	}
+}
+
+// A blocking aio is posted on the socket or the context and then cancelled,
+// left to time out, or left parked while all probes run (and then cancelled).
+// The caller's probes follow and see the state this leaves behind.
+static void
+step_park(cx_t *c, char *label, size_t lsz)
+{
+	static const char *endings[] = { "cancel", "timeout", "hold" };
+	bool     send   = vf_chance(c->r, 1, 2);
+	bool     onctx  = c->have_ctx && vf_chance(c->r, 1, 2);
+	int      ending = (int) vf_below(c->r, 3);
+	nng_aio *a;
+	nng_msg *m = NULL;
+	char     during[48];
+	if (nng_aio_alloc(&a, NULL, NULL) != 0) vf_harness_fail("aio alloc");
+	nng_aio_set_timeout(a, ending == 1 ? 20 : 8000);
+	if (send) {
+		if (c->stash != NULL && c->raw && !onctx) {
+			if (nng_msg_dup(&m, c->stash) != 0) vf_harness_fail("dup");
+		} else {
+			m = fresh_msg(c);
+		}
+		nng_aio_set_msg(a, m);
+		if (onctx) nng_ctx_send(c->ctx, a);
+		else { nng_socket_send(c->s, a); c->send_tried_since_recv = true; }
 	} else {
-		m = fresh_msg(c);
+		if (onctx) nng_ctx_recv(c->ctx, a);
+		else nng_socket_recv(c->s, a);
 	}
-	int      pre = c->have_sfd ? fd_readable(c->sfd) : -1;
-	uint64_t t0  = vf_now_ns();
-	int      rv  = nng_sendmsg(c->s, m, NNG_FLAG_NONBLOCK);
-	double   ms  = (double) (vf_now_ns() - t0) / 1e6;
-	vf_stat("probes", 1);
-	vf_class("%s/send%s/fd%d/rv=%d/after=%s", c->name, echo ? "-echo" : "", pre, rv == 0 ? 0 : rv == NNG_EAGAIN ? 8 : rv, after);
-	if (ms > 400.0) {
-		snprintf(key, sizeof(key), "C15/blocked/%s.send", c->name);
-		vf_violation(key, "%s: NONBLOCK send took %.0f ms (result %s) after %s", c->name, ms, nng_strerror(rv), after);
-	}
-	if (rv == 0) {
-		if (pre == 0) {
-			snprintf(key, sizeof(key), "C15/missed-wakeup/%s.send", c->name);
-			vf_violation(key, "%s: send poll fd not readable at quiescence but NONBLOCK send succeeded (after %s)", c->name, after);
-		}
-		return; // library owns the message
-	}
-	// failed: we still own m (e): if the library freed or kept it, ASan / the
-	// allocator balance at fini report it
-	if (rv == NNG_EAGAIN) {
-		if (pre == 1) {
-			vf_msleep(200);
-			settle(c);
-			if (fd_readable(c->sfd)) {
-				int rv2 = nng_sendmsg(c->s, m, NNG_FLAG_NONBLOCK);
-				if (rv2 == NNG_EAGAIN) {
-					snprintf(key, sizeof(key), "C15/readable-but-eagain/%s.send", c->name);
-					vf_violation(key, "%s: send poll fd stays readable but NONBLOCK send returns NNG_EAGAIN (after %s)", c->name, after);
-				} else if (rv2 == 0) {
-					return;
-				}
+	settle(c);
+	bool parked = nng_aio_busy(a);
+	snprintf(label, lsz, "%s%s-%s%s", send ? "asend" : "arecv", onctx ? "-ctx" : "", endings[ending], parked ? "" : "-done");
+	if (parked && ending == 2) {
+		snprintf(during, sizeof(during), "%s%s-is-parked", send ? "asend" : "arecv", onctx ? "-ctx" : "");
+		probe_all(c, during);
+		vf_stat("probe_rounds_while_aio_parked", 1);
+		// one more event while it waits (a resize must serve the waiter
+		// first; traffic completes it), then all probes again
+		static const char *evs[] = { "resize-sendbuf", "resize-recvbuf", "peer-send", "peer-recv" };
+		int ev = (int) vf_below(c->r, 4);
+		switch (ev) {
+		case 0: nng_socket_set_int(c->s, NNG_OPT_SENDBUF, (int) vf_below(c->r, 6)); break;
+		case 1: nng_socket_set_int(c->s, NNG_OPT_RECVBUF, (int) vf_below(c->r, 6)); break;
+		case 2:
+			if (c->peer_open) {
+				nng_msg *pm = fresh_msg(c);
+				if (nng_sendmsg(c->peer, pm, 0) != 0) nng_msg_free(pm);
 			}
+			break;
+		default:
+			if (c->peer_open) peer_reads(c, c->peer, 2, true);
+			break;
 		}
-		if (!still_idle()) { vf_stat("unjudged_activity_after_eagain", 1); nng_msg_free(m); return; }
-		if (nng_sendmsg(c->s, m, NNG_FLAG_NONBLOCK) == 0) {
-			vf_stat("unjudged_second_try_succeeded", 1);
-			return;
-		}
-		nng_socket_set_ms(c->s, NNG_OPT_SENDTIMEO, 100);
-		int rv3 = nng_sendmsg(c->s, m, 0);
-		if (rv3 == 0) {
-			snprintf(key, sizeof(key), "C15/eagain-but-can/%s.send", c->name);
-			vf_violation(key, "%s: NONBLOCK send returned NNG_EAGAIN at quiescence, the same send with a 100 ms timeout then succeeded (after %s)", c->name, after);
-			return;
+		settle(c);
+		snprintf(during, sizeof(during), "%s%s-%s+%s", send ? "asend" : "arecv", onctx ? "-ctx" : "", nng_aio_busy(a) ? "is-parked" : "was-parked", evs[ev]);
+		probe_all(c, during);
+	}
+	if (ending != 1) nng_aio_cancel(a);
+	nng_aio_wait(a);
+	int rv = nng_aio_result(a);
+	if (send) {
+		if (rv != 0 && (m = nng_aio_get_msg(a)) != NULL) nng_msg_free(m);
+	} else if (rv == 0) {
+		keep_msg(c, nng_aio_get_msg(a), onctx);
+	}
+	nng_aio_free(a);
+	vf_class("park/%s/%s/%s/rv=%d", c->name, vf_tran_names[c->tran], label, rv);
+	if (parked) {
+		char stat[64];
+		snprintf(stat, sizeof(stat), "parked_aio_%s_%s", send ? "send" : "recv", rv == NNG_ECANCELED ? "cancelled" : rv == NNG_ETIMEDOUT ? "timedout" : "completed");
+		vf_stat(stat, 1);
+	}
+}
+
+// A survey with a short survey time is sent (socket or context), some
+// respondents answer, and the survey time passes.
+static void
+step_survey_expire(cx_t *c, char *label, size_t lsz)
+{
+	bool     onctx = c->have_ctx && vf_chance(c->r, 1, 2);
+	nng_msg *m     = fresh_msg(c);
+	int      rv;
+	int      answers = 0;
+	if (onctx) {
+		nng_ctx_set_ms(c->ctx, NNG_OPT_SURVEYOR_SURVEYTIME, 30);
+		nng_ctx_set_ms(c->ctx, NNG_OPT_SENDTIMEO, 1000);
+		rv = nng_ctx_sendmsg(c->ctx, m, 0);
+		nng_ctx_set_ms(c->ctx, NNG_OPT_SURVEYOR_SURVEYTIME, 2000);
+	} else {
+		nng_socket_set_ms(c->s, NNG_OPT_SURVEYOR_SURVEYTIME, 30);
+		nng_socket_set_ms(c->s, NNG_OPT_SENDTIMEO, 1000);
+		rv = nng_sendmsg(c->s, m, 0);
+		nng_socket_set_ms(c->s, NNG_OPT_SURVEYOR_SURVEYTIME, 2000);
+		c->send_tried_since_recv = true;
+	}
+	if (rv != 0) nng_msg_free(m);
+	for (int i = 0; i < c->npeers && rv == 0; i++) {
+		nng_msg *q;
+		if (!c->peers_open[i] || vf_chance(c->r, 1, 3)) continue;
+		if (nng_recvmsg(c->peers[i], &q, 0) == 0) {
+			if (nng_sendmsg(c->peers[i], q, 0) != 0) nng_msg_free(q);
+			else answers++;
 		}
 	}
-	nng_msg_free(m);
+	// not earlier than the survey time after the send: the survey has expired
+	vf_msleep(45);
+	snprintf(label, lsz, "survey%s-expire%s", onctx ? "-ctx" : "", answers ? "-answered" : "");
+	if (rv == 0) vf_stat("surveys_expired", 1);
+	// the expired survey (with or without unread responses) is looked at
+	// before any new survey replaces it
+	if (onctx) probe_ctx(c, false, label);
+	else probe_recv(c, label);
+}
+
+// the peer sends without blocking until it is refused (or 12 messages)
+static int
+peer_fill(cx_t *c, nng_socket peer, int cap)
+{
+	int n = 0;
+	for (; n < cap; n++) {
+		nng_msg *m = fresh_msg(c);
+		if (nng_sendmsg(peer, m, NNG_FLAG_NONBLOCK) != 0) {
+			nng_msg_free(m);
+			vf_stat("peer_fill_refused", 1);
+			break;
+		}
+		if ((n & 3) == 3) settle(c);
+	}
+	return n;
 }
 
 static int
@@ -260,47 +769,40 @@ open_peer(cx_t *c, int pi)
 	return 0;
 }
 
+static bool
+is_proto(cx_t *c, const char *cooked_name)
+{
+	return !c->raw && !strcmp(c->pr->name, cooked_name);
+}
+
 static void
 run_case(long idx, vf_rng *r, int pi, bool raw, int tran, int nops)
 {
 	cx_t c;
-	char url[128];
 	int  rv;
-	memset(&c, 0, sizeof(c));
-	c.pr   = &vf_protos[pi];
-	c.raw  = raw;
-	c.tran = tran;
-	snprintf(c.name, sizeof(c.name), "%s%s", raw ? "x" : "", c.pr->name);
-	vf_case_begin(idx, "proto=%s tran=%s ops=%d", c.name, vf_tran_names[tran], nops);
-	if ((rv = (raw ? c.pr->open_raw : c.pr->open)(&c.s)) != 0) vf_harness_fail("open %s: %s", c.name, nng_strerror(rv));
-	// long protocol timers: a call that waits for one of them is unambiguous
-	nng_socket_set_ms(c.s, NNG_OPT_REQ_RESENDTIME, 60000);
-	nng_socket_set_ms(c.s, NNG_OPT_SURVEYOR_SURVEYTIME, 2000);
-	if (!strcmp(c.pr->name, "sub") && !raw) nng_sub0_socket_subscribe(c.s, "", 0);
-	c.have_rfd = nng_socket_get_recv_poll_fd(c.s, &c.rfd) == 0;
-	c.have_sfd = nng_socket_get_send_poll_fd(c.s, &c.sfd) == 0;
-	vf_url(tran, url, sizeof(url));
-	if ((rv = nng_listen(c.s, url, &c.lst, 0)) != 0) vf_harness_fail("listen %s", nng_strerror(rv));
-	vf_dial_url(c.lst, tran, url, c.durl, sizeof(c.durl));
-
-	nng_pipe_notify(c.s, NNG_PIPE_EV_ADD_POST, pipe_cb, &c);
-	nng_pipe_notify(c.s, NNG_PIPE_EV_REM_POST, pipe_cb, &c);
+	open_local(&c, pi, raw, tran, r);
+	bool defer = vf_chance(r, 1, 2);
+	vf_case_begin(idx, "proto=%s tran=%s ops=%d lazyfds=%d", c.name, vf_tran_names[tran], nops, defer);
+	// half of the histories ask for the poll descriptors only after the
+	// first traffic: the library then creates them for a pollable that may
+	// already be raised
+	if (!defer) fetch_fds(&c, false);
 	c.npeers = strncmp(c.pr->name, "pair", 4) == 0 ? 1 : (int) vf_range(r, 1, 3);
-	probe_recv(&c, "open");
-	probe_send(&c, "open");
+	probe_all(&c, "open");
 	for (int i = 0; i < c.npeers; i++) {
 		if ((rv = open_peer(&c, i)) != 0) vf_harness_fail("peer: %s", nng_strerror(rv));
 	}
-	probe_send(&c, "connect");
-	probe_recv(&c, "connect");
+	probe_all(&c, "connect");
 
-	char hist[200];
+	char hist[240];
 	size_t hl = 0;
 	hist[0] = 0;
 	for (int i = 0; i < nops; i++) {
-		int         op = (int) vf_below(r, 10);
+		int         op = (int) vf_below(r, 13);
 		const char *what = "?";
+		char        label[64];
 		int         pi = (int) vf_below(r, (uint32_t) c.npeers);
+		bool        traffic = false;
 		c.peer      = c.peers[pi];
 		c.peer_open = c.peers_open[pi];
 		switch (op) {
@@ -313,25 +815,14 @@ run_case(long idx, vf_rng *r, int pi, bool raw, int tran, int nops)
 				nng_msg *m = fresh_msg(&c);
 				if (nng_sendmsg(c.peer, m, 0) != 0) nng_msg_free(m);
 			}
+			traffic = true;
 			break;
 		}
-		case 2: { // peer reads
+		case 2: // peer reads
 			what = "peer-recv";
 			if (!c.peer_open) break;
-			nng_msg *m;
-			int      k = (int) vf_range(r, 1, 4);
-			for (int j = 0; j < k; j++) {
-				if (nng_recvmsg(c.peer, &m, 0) == 0) {
-					// a replying peer answers (rep/respondent)
-					if (!strcmp(c.pr->peer_name, "rep") || !strcmp(c.pr->peer_name, "respondent")) {
-						if (nng_sendmsg(c.peer, m, 0) != 0) nng_msg_free(m);
-					} else {
-						nng_msg_free(m);
-					}
-				}
-			}
+			peer_reads(&c, c.peer, (int) vf_range(r, 1, 4), false);
 			break;
-		}
 		case 3:
 			what = "resize-recvbuf";
 			nng_socket_set_int(c.s, NNG_OPT_RECVBUF, (int) vf_below(r, 6));
@@ -368,79 +859,127 @@ run_case(long idx, vf_rng *r, int pi, bool raw, int tran, int nops)
 			}
 			break;
 		}
-		case 6:
-			if (!strcmp(c.pr->name, "sub") && !raw) {
-				if (vf_chance(r, 1, 2)) { what = "unsubscribe"; nng_sub0_socket_unsubscribe(c.s, "", 0); }
-				else { what = "subscribe"; nng_sub0_socket_subscribe(c.s, "", 0); }
-			} else {
-				what = "nothing";
+		case 6: // protocol specific
+			if (is_proto(&c, "sub")) {
+				bool onctx = vf_chance(r, 1, 2);
+				if (vf_chance(r, 1, 2)) {
+					what = onctx ? "unsubscribe-ctx" : "unsubscribe";
+					if (onctx) nng_sub0_ctx_unsubscribe(c.ctx, "", 0);
+					else nng_sub0_socket_unsubscribe(c.s, "", 0);
+				} else {
+					what = onctx ? "subscribe-ctx" : "subscribe";
+					if (onctx) nng_sub0_ctx_subscribe(c.ctx, "", 0);
+					else nng_sub0_socket_subscribe(c.s, "", 0);
+				}
+				break;
 			}
+			// fall through
+		case 9:
+			if (is_proto(&c, "surveyor")) {
+				step_survey_expire(&c, label, sizeof(label));
+				what = label;
+				break;
+			}
+			// fall through
+		case 8:
+			step_park(&c, label, sizeof(label));
+			what = label;
+			break;
+		case 10: // the peer sends until it is refused
+			what = "peer-fill";
+			if (!c.peer_open) break;
+			peer_fill(&c, c.peer, 12);
+			traffic = true;
 			break;
 		default:
 			what = "probe-only";
 			break;
 		}
+		if (!c.fds_fetched && (traffic || i >= 3)) {
+			settle(&c);
+			fetch_fds(&c, true);
+		}
 		if (hl + strlen(what) + 2 < sizeof(hist)) hl += (size_t) snprintf(hist + hl, sizeof(hist) - hl, "%s%s", i ? "," : "", what);
-		if (vf_chance(r, 1, 2)) { probe_recv(&c, what); probe_send(&c, what); }
-		else { probe_send(&c, what); probe_recv(&c, what); }
+		probe_all(&c, what);
 		vf_watchdog(60);
 	}
-	if ((idx % 7) == 0) vf_sample("{\"proto\":\"%s\",\"tran\":\"%s\",\"history\":\"%s\"}", c.name, vf_tran_names[tran], hist);
-	if (c.stash) nng_msg_free(c.stash);
-	for (int i = 0; i < 3; i++) {
-		if (c.peers_open[i]) nng_socket_close(c.peers[i]);
-	}
-	nng_socket_close(c.s);
+	if ((idx % 7) == 0) vf_sample("{\"proto\":\"%s\",\"tran\":\"%s\",\"lazyfds\":%d,\"history\":\"%s\"}", c.name, vf_tran_names[tran], defer, hist);
+	close_all(&c);
 	vf_stat("cases", 1);
 	// allocator balance per case (so a leak is attributed to its case)
 	vf_nng_fini("C15");
 	vf_nng_init(4, 2, 2);
 }
 
-
 // "parked" scenarios: messages from several peers are pending, then ONE
-// disruption (closing pipe j for every j, closing peer j, a buffer resize) and
-// probes until everything is drained.  Enumerated, not sampled: the pipe that
-// holds the oldest pending message is among the j.
+// disruption (closing pipe j for every j, closing peer j, a buffer resize,
+// an unsubscribe, a resize of a FULL queue, a new request that discards the
+// pending reply) and probes until everything is drained.  Enumerated, not
+// sampled: the pipe that holds the oldest pending message is among the j.
+enum { D_PIPE_CLOSE = 0, D_PEER_CLOSE, D_RESIZE_RECV, D_RESIZE_SEND, D_NONE, D_UNSUB, D_FULL_RECV, D_FULL_SEND, D_NEW_REQUEST, D_SURVEY_EXPIRE, D_FULL_SEND_WAITER, D_WAITER_DRAIN, D_N };
+static const char *dnames[D_N] = { "local-pipe-close", "peer-close", "resize-recvbuf", "resize-sendbuf", "none", "unsubscribe", "resize-full-recvbuf", "resize-full-sendbuf", "new-request", "survey-expire", "resize-full-sendbuf-waiter", "peer-recv-with-sender-waiting" };
+static const int   dtargets[D_N] = { 3, 3, 3, 3, 1, 2, 3, 3, 2, 2, 3, 2 };
+static const int   resize_from[3] = { 4, 1, 0 }, resize_to[3] = { 1, 0, 4 };
+
+static bool
+parked_applies(int pi, bool raw, int d)
+{
+	const char *n = vf_protos[pi].name;
+	if (d == D_UNSUB) return !raw && !strcmp(n, "sub");
+	if (d == D_NEW_REQUEST) return !raw && (!strcmp(n, "req") || !strcmp(n, "surveyor"));
+	if (d == D_SURVEY_EXPIRE) return !raw && !strcmp(n, "surveyor");
+	return true;
+}
+
 static void
 run_parked(long idx, vf_rng *r, int pi, bool raw, int tran, int disruption, int target)
 {
 	cx_t c;
-	char url[128];
 	int  rv;
-	static const char *dnames[] = { "local-pipe-close", "peer-close", "resize-recvbuf", "resize-sendbuf", "none" };
-	memset(&c, 0, sizeof(c));
-	c.pr   = &vf_protos[pi];
-	c.raw  = raw;
-	c.tran = tran;
-	snprintf(c.name, sizeof(c.name), "%s%s", raw ? "x" : "", c.pr->name);
-	vf_case_begin(idx, "parked proto=%s tran=%s disruption=%s target=%d", c.name, vf_tran_names[tran], dnames[disruption], target);
-	if ((rv = (raw ? c.pr->open_raw : c.pr->open)(&c.s)) != 0) vf_harness_fail("open");
-	nng_socket_set_ms(c.s, NNG_OPT_REQ_RESENDTIME, 60000);
-	nng_socket_set_ms(c.s, NNG_OPT_SURVEYOR_SURVEYTIME, 2000);
-	if (!strcmp(c.pr->name, "sub") && !raw) nng_sub0_socket_subscribe(c.s, "", 0);
-	c.have_rfd = nng_socket_get_recv_poll_fd(c.s, &c.rfd) == 0;
-	c.have_sfd = nng_socket_get_send_poll_fd(c.s, &c.sfd) == 0;
-	nng_pipe_notify(c.s, NNG_PIPE_EV_ADD_POST, pipe_cb, &c);
-	nng_pipe_notify(c.s, NNG_PIPE_EV_REM_POST, pipe_cb, &c);
-	vf_url(tran, url, sizeof(url));
-	if ((rv = nng_listen(c.s, url, &c.lst, 0)) != 0) vf_harness_fail("listen");
-	vf_dial_url(c.lst, tran, url, c.durl, sizeof(c.durl));
+	char after[64];
+	bool asks_first;
+	open_local(&c, pi, raw, tran, r);
+	// when are the poll descriptors created: at open, after the messages are
+	// pending (pollable already raised), or only after the disruption
+	int fdmode = (int) (idx % 3);
+	vf_case_begin(idx, "parked proto=%s tran=%s disruption=%s target=%d fdmode=%d", c.name, vf_tran_names[tran], dnames[disruption], target, fdmode);
+	snprintf(after, sizeof(after), "%s", dnames[disruption]);
+	bool full_send = disruption == D_FULL_SEND || disruption == D_FULL_SEND_WAITER || disruption == D_WAITER_DRAIN;
+	bool has_waiter = disruption == D_FULL_SEND_WAITER || disruption == D_WAITER_DRAIN;
+	nng_aio *waiter = NULL;
+	if (disruption == D_WAITER_DRAIN) {
+		snprintf(after, sizeof(after), "%s-%d", dnames[disruption], target + 1);
+		nng_socket_set_int(c.s, NNG_OPT_SENDBUF, 2);
+	} else if (disruption == D_FULL_RECV || full_send) {
+		snprintf(after, sizeof(after), "%s-%dto%d", dnames[disruption], resize_from[target], resize_to[target]);
+		nng_socket_set_int(c.s, disruption == D_FULL_RECV ? NNG_OPT_RECVBUF : NNG_OPT_SENDBUF, resize_from[target]);
+	}
+	if (fdmode == 0) fetch_fds(&c, false);
 	c.npeers = strncmp(c.pr->name, "pair", 4) == 0 ? 1 : 3;
 	for (int i = 0; i < c.npeers; i++) {
 		if ((rv = open_peer(&c, i)) != 0) vf_harness_fail("peer");
 	}
 	// a surveyor / req local must speak first so that peers may answer
-	if (!raw && (!strcmp(c.pr->name, "req") || !strcmp(c.pr->name, "surveyor"))) {
+	asks_first = is_proto(&c, "req") || is_proto(&c, "surveyor");
+	if (asks_first) {
+		bool onctx = (disruption == D_NEW_REQUEST || disruption == D_SURVEY_EXPIRE) && target == 1;
 		nng_msg *m = fresh_msg(&c);
-		if (nng_sendmsg(c.s, m, 0) != 0) nng_msg_free(m);
-		for (int i = 0; i < c.npeers; i++) {
-			nng_msg *q;
-			if (nng_recvmsg(c.peers[i], &q, 0) == 0) {
-				if (nng_sendmsg(c.peers[i], q, 0) != 0) nng_msg_free(q);
-			}
+		if (disruption == D_SURVEY_EXPIRE) {
+			if (onctx) nng_ctx_set_ms(c.ctx, NNG_OPT_SURVEYOR_SURVEYTIME, 30);
+			else nng_socket_set_ms(c.s, NNG_OPT_SURVEYOR_SURVEYTIME, 30);
 		}
-	} else {
+		if ((onctx ? nng_ctx_sendmsg(c.ctx, m, 0) : nng_sendmsg(c.s, m, 0)) != 0) nng_msg_free(m);
+		if (!onctx) c.send_tried_since_recv = true;
+		for (int i = 0; i < c.npeers; i++) peer_reads(&c, c.peers[i], 1, false);
+		if (disruption == D_SURVEY_EXPIRE) {
+			if (onctx) nng_ctx_set_ms(c.ctx, NNG_OPT_SURVEYOR_SURVEYTIME, 2000);
+			else nng_socket_set_ms(c.s, NNG_OPT_SURVEYOR_SURVEYTIME, 2000);
+		}
+	} else if (disruption == D_FULL_RECV) {
+		// every peer sends until it is refused (inproc) or 12 messages (the
+		// kernel takes what the socket does not)
+		for (int i = 0; i < c.npeers; i++) peer_fill(&c, c.peers[i], 12);
+	} else if (!full_send) {
 		// every peer sends two messages, in a seeded peer order
 		int order[3] = { 0, 1, 2 };
 		for (int i = c.npeers - 1; i > 0; i--) { int j = (int) vf_below(r, (uint32_t) i + 1); int t = order[i]; order[i] = order[j]; order[j] = t; }
@@ -453,8 +992,47 @@ run_parked(long idx, vf_rng *r, int pi, bool raw, int tran, int disruption, int 
 		}
 	}
 	settle(&c);
+	if (fdmode == 1) fetch_fds(&c, true);
+	if (full_send) {
+		// the local side sends (judged NONBLOCK probes) until it is refused;
+		// nobody reads
+		int n = 0, cap = 24;
+		fetch_fds(&c, true);
+		if (raw) {
+			// a routing header to echo, where the protocol wants one
+			for (int i = 0; i < c.npeers; i++) { nng_msg *m = fresh_msg(&c); if (nng_sendmsg(c.peers[i], m, 0) != 0) nng_msg_free(m); }
+			settle(&c);
+			probe(&c, false, F_MSG, "fill");
+			c.keep_stash = true;
+		}
+		for (; n < cap; n++) {
+			int rv1 = probe(&c, true, n % 3 == 2 ? F_AIO : F_MSG, "fill");
+			if (rv1 != 0) break;
+		}
+		if (n < cap) {
+			vf_stat("send_fill_refused", 1);
+			vf_class("sendfill-refused/%s/%s", c.name, vf_tran_names[tran]);
+		}
+		if (has_waiter) {
+			// and one more sender waits (blocking aio) when the queue is
+			// resized / when a peer takes a message or two
+			nng_msg *m;
+			if (c.raw && c.stash != NULL) { if (nng_msg_dup(&m, c.stash) != 0) vf_harness_fail("dup"); }
+			else m = fresh_msg(&c);
+			if (nng_aio_alloc(&waiter, NULL, NULL) != 0) vf_harness_fail("aio alloc");
+			nng_aio_set_timeout(waiter, 8000);
+			nng_aio_set_msg(waiter, m);
+			nng_socket_send(c.s, waiter);
+			settle(&c);
+			if (nng_aio_busy(waiter)) {
+				vf_stat("disruptions_with_sender_waiting", 1);
+				vf_class("send-waiter/%s/%s/%s", c.name, vf_tran_names[tran], after);
+			}
+		}
+		c.keep_stash = false;
+	}
 	switch (disruption) {
-	case 0: {
+	case D_PIPE_CLOSE: {
 		nng_pipe p = NNG_PIPE_INITIALIZER;
 		pthread_mutex_lock(&pipes_mtx);
 		if (target < c.npipes) p = c.pipes[target];
@@ -467,23 +1045,74 @@ run_parked(long idx, vf_rng *r, int pi, bool raw, int tran, int disruption, int 
 		}
 		break;
 	}
-	case 1:
+	case D_PEER_CLOSE:
 		if (target < c.npeers) { nng_socket_close(c.peers[target]); c.peers_open[target] = false; vf_msleep(5); }
 		break;
-	case 2: nng_socket_set_int(c.s, NNG_OPT_RECVBUF, target); break;
-	case 3: nng_socket_set_int(c.s, NNG_OPT_SENDBUF, target); break;
+	case D_RESIZE_RECV: nng_socket_set_int(c.s, NNG_OPT_RECVBUF, target * 2); break;
+	case D_RESIZE_SEND: nng_socket_set_int(c.s, NNG_OPT_SENDBUF, target * 2); break;
+	case D_UNSUB:
+		// messages are queued for the socket and for the context: one of the
+		// two loses its subscription (and with it its queued messages)
+		if (target == 0) nng_sub0_socket_unsubscribe(c.s, "", 0);
+		else nng_sub0_ctx_unsubscribe(c.ctx, "", 0);
+		vf_stat("unsubscribes_with_pending", 1);
+		// more traffic: only the one still subscribed may show it
+		for (int i = 0; i < c.npeers; i++) {
+			nng_msg *m = fresh_msg(&c);
+			if (nng_sendmsg(c.peers[i], m, 0) != 0) nng_msg_free(m);
+		}
+		break;
+	case D_FULL_RECV:
+		if (nng_socket_set_int(c.s, NNG_OPT_RECVBUF, resize_to[target]) == 0) vf_stat("resizes_of_full_recvbuf", 1);
+		break;
+	case D_FULL_SEND:
+	case D_FULL_SEND_WAITER:
+		if (nng_socket_set_int(c.s, NNG_OPT_SENDBUF, resize_to[target]) == 0) vf_stat("resizes_of_full_sendbuf", 1);
+		break;
+	case D_NEW_REQUEST: {
+		// the reply / the responses are pending unread: a new request or
+		// survey discards them
+		nng_msg *m = fresh_msg(&c);
+		settle(&c);
+		fetch_fds(&c, true);
+		if (c.have_rfd && fd_readable(c.rfd)) vf_stat("new_request_with_reply_pending", 1);
+		if ((target == 1 ? nng_ctx_sendmsg(c.ctx, m, 0) : nng_sendmsg(c.s, m, 0)) != 0) nng_msg_free(m);
+		break;
+	}
+	case D_WAITER_DRAIN:
+		// room appears in a full send path while a sender waits: it is the
+		// waiting sender's (and then the socket is as full as before), not
+		// room that poll may announce and a non-blocking send may not use
+		if (c.peers_open[0]) peer_reads(&c, c.peers[0], target + 1, true);
+		break;
+	case D_SURVEY_EXPIRE:
+		// the responses are pending unread and the survey time passes (not
+		// earlier than 45 ms after the send of a 30 ms survey)
+		vf_msleep(45);
+		vf_stat("surveys_expired", 1);
+		break;
 	default: break;
 	}
+	if (fdmode == 2) { settle(&c); fetch_fds(&c, true); }
 	for (int k = 0; k < 8; k++) {
-		probe_recv(&c, dnames[disruption]);
-		if (k == 0 || k == 4) probe_send(&c, dnames[disruption]);
+		probe_recv(&c, after);
+		if ((k & 1) == 0) probe_send(&c, after);
+		if (k % 3 == 1) probe_ctx(&c, false, after);
+		if (k % 3 == 2) probe_ctx(&c, true, after);
+		if (full_send && k == 3) {
+			// the peers start reading: the flow resumes
+			for (int i = 0; i < c.npeers; i++) if (c.peers_open[i]) peer_reads(&c, c.peers[i], 4, true);
+		}
 		vf_watchdog(60);
 	}
-	if (c.stash) nng_msg_free(c.stash);
-	for (int i = 0; i < 3; i++) {
-		if (c.peers_open[i]) nng_socket_close(c.peers[i]);
+	if (waiter != NULL) {
+		nng_msg *m;
+		nng_aio_cancel(waiter);
+		nng_aio_wait(waiter);
+		if (nng_aio_result(waiter) != 0 && (m = nng_aio_get_msg(waiter)) != NULL) nng_msg_free(m);
+		nng_aio_free(waiter);
 	}
-	nng_socket_close(c.s);
+	close_all(&c);
 	vf_stat("cases", 1);
 	vf_stat("parked_cases", 1);
 	vf_nng_fini("C15");
@@ -517,12 +1146,12 @@ main(int argc, char **argv)
 		for (int pi = 0; pi < vf_nprotos; pi++) {
 			for (int raw = 0; raw < 2; raw++) {
 				for (int t = 0; t < 2; t++) {
-					for (int d = 0; d < 5; d++) {
-						int nt = d == 0 ? 3 : d == 1 ? 3 : d == 4 ? 1 : 3;
-						for (int tg = 0; tg < nt; tg++, pidx++) {
+					for (int d = 0; d < D_N; d++) {
+						if (!parked_applies(pi, raw != 0, d)) continue;
+						for (int tg = 0; tg < dtargets[d]; tg++, pidx++) {
 							if ((pidx % vf_nshards) != vf_shard || !vf_want_case(pidx)) continue;
 							vf_rng_seed(&r, vf_seed, (uint64_t) pidx);
-							run_parked(pidx, &r, pi, raw != 0, t == 0 ? VF_T_INPROC : VF_T_TCP, d, d >= 2 ? tg * 2 : tg);
+							run_parked(pidx, &r, pi, raw != 0, t == 0 ? VF_T_INPROC : VF_T_TCP, d, tg);
 						}
 					}
 				}
